@@ -148,8 +148,11 @@ Target `func(struct{ argmapper.Struct; N T; X T `argmapper:",typeOnly"` })` call
 `NamedSubtype("n", T{…}, "x")`: the graph has the R6 edge `value n T "" → value n T "x"` and the R3 edges
 `arg T "" → value n T "x"`, `arg T "" → value n T ""`.  The path `root, value n T x, value n T "", arg T ""`
 is a real root-first path (cost 11), but not the one Dijkstra chooses (`root, value n T x, arg T ""`,
-cost 6).  Walking it leaves the argument vertex empty: the hop into the value-less vertex `value n T ""`
-publishes no value.  With the legal paths the call succeeds. -/
+cost 6).  **Before the repair of finding F22** (`hopCopies := false`) walking it leaves the argument vertex empty:
+the hop into the value-less vertex `value n T ""` publishes no value.  With the legal paths the call succeeds.
+Since the repair (`hopCopies := true`, the default of `C01.stdCtx`) the hop copies the value of
+`value n T "x"` into `value n T ""` and the call succeeds with the non-shortest path too
+(`finalValue_illegal_ok_after_repair`). -/
 
 def svN : SVal := ⟨⟨"n", 1, ""⟩, 1⟩
 def svT : SVal := ⟨⟨"", 1, ""⟩, 2⟩
@@ -167,12 +170,30 @@ def orcLegal : List OrcItem :=
   [⟨.func 0, [.value "n" 1 "", .arg 1 ""],
     [[.root, .value "n" 1 "x", .value "n" 1 ""], [.root, .value "n" 1 "x", .arg 1 ""]]⟩]
 
-def run2 (orc : List OrcItem) : Outcome × CallSt :=
-  callWith (C01.stdCtx e0 b2 (fun _ => none) tgt2 behNil) (callGraph {} e0 b2 (fun _ => none) tgt2 false none) tgt2 5
+/-- the scenario run with the hop behaviour `hop` (`false`: before the repair of F22; `true`: the default of
+`C01.stdCtx`) -/
+def run2With (hop : Bool) (orc : List OrcItem) : Outcome × CallSt :=
+  callWith { C01.stdCtx e0 b2 (fun _ => none) tgt2 behNil with hopCopies := hop }
+    (callGraph {} e0 b2 (fun _ => none) tgt2 false none) tgt2 5
     (initSt (callGraph {} e0 b2 (fun _ => none) tgt2 false none).cg [] orc)
 
-/-- every hypothesis of `C06.no_walk_panic` except the legality of the oracle holds (there is no converter
-at all), both paths of the oracle are valid paths, and the call panics; with the legal oracle it succeeds -/
+/-- the pre-repair context (`hopCopies := false`) -/
+def run2 (orc : List OrcItem) : Outcome × CallSt := run2With false orc
+
+/-- `run2With true` is the run in `C01.stdCtx` itself -/
+theorem run2With_true (orc : List OrcItem) :
+    run2With true orc =
+      callWith (C01.stdCtx e0 b2 (fun _ => none) tgt2 behNil) (callGraph {} e0 b2 (fun _ => none) tgt2 false none) tgt2 5
+        (initSt (callGraph {} e0 b2 (fun _ => none) tgt2 false none).cg [] orc) := rfl
+
+/-- since the repair of F22 the real but non-shortest path no longer makes the call panic -/
+theorem finalValue_illegal_ok_after_repair :
+    (run2With true orcIllegal).1 = .ok ⟨[], none⟩ ∧ (run2With true orcLegal).1 = .ok ⟨[], none⟩ := by
+  exact ⟨by decide, by decide⟩
+
+/-- (pre-repair context, `hopCopies := false`) every hypothesis of `C06.no_walk_panic` except the legality of the
+oracle holds (there is no converter at all), both paths of the oracle are valid paths, and the call panics;
+with the legal oracle it succeeds -/
 theorem finalValue_needs_legal :
     C03.BuilderOK b2 ∧ C01.FuncsConsistent (C01.allFuncs b2 (fun _ => none) tgt2) ∧
     C05.SetsWF (C01.allFuncs b2 (fun _ => none) tgt2) ∧
